@@ -85,6 +85,8 @@ type Net struct {
 	conns   []*Conn // client ends, by id
 	Log     []Event
 	OnEvent func(Event)
+	// OnDial is called for every new connection (client end) before it is returned.
+	OnDial func(c *Conn)
 	// ChunkMode: 0 whole, 1 PRNG split, 2 single bytes (per stream read)
 	ChunkMode int
 	// LazyRST: a write on a connection the peer has reset is accepted silently
@@ -158,6 +160,10 @@ func (n *Net) Dial(ctx context.Context, network, addr string) (net.Conn, error) 
 	}
 	stream := key(network, "") == "tcp:"
 	c, s := n.pair(stream, addr)
+	c.DialTask = simrt.CurTaskID()
+	if n.OnDial != nil {
+		n.OnDial(c)
+	}
 	n.logf(c, "dial", nth, nil)
 	if ep.accept != nil {
 		simrt.Send(siteDial, ep.accept, s)
@@ -201,6 +207,7 @@ type Conn struct {
 	Writes      int
 	Reads       int
 
+	DialTask int // id of the task that dialled
 	// WriteHook, if set, is called after each successful Write (same task).
 	WriteHook func(c *Conn, b []byte)
 }
